@@ -10,15 +10,23 @@ from common import cps
 
 ID = "C02"
 LEAN_MODEL_TARGETS = ["drv_c02"]
-LEAN_PROOF_TARGETS = ["PyroProps.C02"]
-AUDIT_FILES = ["PyroModel/PyLib.lean", "PyroModel/Expose.lean", "PyroModel/Gen/C02.lean", "PyroProofs/Expose.lean", "PyroProps/C02.lean"]
+LEAN_PROOF_TARGETS = ["PyroProps.C02", "PyroProps.C02Src"]
+AUDIT_FILES = ["PyroModel/PyLib.lean", "PyroModel/Expose.lean", "PyroModel/Gen/C02.lean", "PyroProofs/Expose.lean", "PyroProps/C02.lean",
+               "PyroModel/Gen/C02Src.lean", "PyroModel/ExposeCache.lean", "PyroProps/C02Src.lean"]
 THEOREMS = ["Pyro.C02.C02_translated_private", "Pyro.C02.C02_served_sound", "Pyro.C02.C02_refused_no_effect_partial", "Pyro.C02.C02_refused_no_effect_not_full",
             "Pyro.C02.C02_batch_refused", "Pyro.C02.C02_history_no_memory", "Pyro.C02.C02_history_sound", "Pyro.C02.C02_metadata_cache",
             "Pyro.C02.C02_served_complete", "Pyro.C02.C02_metadata_exact",
             "Pyro.C02.C02_expose_marks", "Pyro.C02.C02_inherited_unexposed_refused",
             "Pyro.C02.C02_private_refused", "Pyro.C02.C02_nonstring_refused", "Pyro.C02.C02_dotted",
             "Pyro.C02.C02_unfixed_call_gate_unsound", "Pyro.C02.C02_unfixed_attr_gate_unsound",
-            "Pyro.C02.C02_gen_reserved", "Pyro.C02.C02_gen_gates", "Pyro.C02.C02_gen_probes"]
+            "Pyro.C02.C02_gen_reserved", "Pyro.C02.C02_gen_gates", "Pyro.C02.C02_gen_probes",
+            # round 5: the three gates transcribed from the source (harness/props/c02_tr.py -> Gen/C02Src.lean)
+            "Pyro.C02.C02_getAttribute_translated", "Pyro.C02.C02_getProp_translated", "Pyro.C02.C02_setProp_translated",
+            "Pyro.C02.C02_source_gates_are_model", "Pyro.C02.C02_source_private_refused", "Pyro.C02.C02_source_call_gate_sound",
+            "Pyro.C02.C02_source_call_gate_no_effect", "Pyro.C02.C02_source_prop_gates_sound",
+            # round 5: member-list cache with failed / overlapping computations (PyroModel/ExposeCache.lean)
+            "Pyro.C02.C02_cache_failed_first", "Pyro.C02.C02_cache_never_partial", "Pyro.C02.C02_cache_overlap_exact",
+            "Pyro.C02.C02_cache_refines"]
 SUITES = ["dispatch", "history", "metadata", "build"]
 RULE = ("class shapes generated from VERIF_SEED: 1-3 classes in an inheritance chain, members drawn from {function, staticmethod, "
         "classmethod, property with any of getter/setter/deleter, plain attribute holding data / a helper instance / a helper class} "
@@ -28,7 +36,9 @@ RULE = ("class shapes generated from VERIF_SEED: 1-3 classes in an inheritance c
         "reserved and ambient dunder names, non-string names, x {call, oneway call, attribute read, attribute write, batch, oneway "
         "batch, short argument lists, attribute requests with extra falsy arguments} sent as raw MSG_INVOKE to Daemon.handleRequest; "
         "the same names through marshal / json / msgpack payloads written with the libraries themselves, also as bytes objects; objects "
-        "registered as instance, weakly (weak=True) or as a class; container-like targets with __len__ / __bool__; "
+        "registered as instance, weakly (weak=True) or as a class; container-like targets with __len__ / __bool__, truthy or falsy; "
+        "30 % of the classes carry a lazily resolved plain class attribute that makes the first 1-2 member-list computations raise part-way "
+        "or lets a second get_metadata overlap the first (events, no timing): the first list told must be exact; "
         "then a history of 0-4 run-time changes (instance attribute set/deleted, class member replaced/deleted, aimed at names served "
         "at that moment) made after the metadata was fetched, each followed by requests judged against the object's state of that moment, with re-advertisements (cached, or after "
         "resetMetadataCache: judged exact against the present state). A request is non-trivial when target code ran "
@@ -44,7 +54,9 @@ ASSUMPTIONS = ["Python object model as modelled in PyroModel/Expose.lean: data d
                "a property counts as explicitly exposed when the function expose() marks for it (fget or fset or fdel) is marked"]
 TRUSTED = ["harness/props/c02_real.py: FakeConn stands for the socket connection; classes made with type() stand for class statements",
            "the probe table in Gen/C02.lean is produced by calling the real decorators and gate functions at extraction time; its row "
-           "decoder exists twice (probe_shape in c02.py, decodeRow in PyroProps/C02.lean)"]
+           "decoder exists twice (probe_shape in c02.py, decodeRow in PyroProps/C02.lean)",
+           "harness/props/c02_tr.py: the translator of the three gates (refuses what it does not understand); its atoms are the model's "
+           "abstract operations of Python attribute lookup (lookupType, getattrInst, isDataDesc, objMarked) as listed under ASSUMPTIONS"]
 
 CORPUS = os.path.join(common.VERIF, "corpus", "C02")
 
@@ -76,6 +88,9 @@ def extract():
     text = text[:i] + trans + text[i:]
     if "import PyroModel.PyLib" not in text:
         text = "import PyroModel.PyLib\n" + text
+    # the three gates, transcribed (sound by refusal: Untranslatable -> the runner reports the extractor as a broken tie)
+    from props import c02_tr
+    common.write_if_changed(os.path.join(common.LEAN, "PyroModel", "Gen", "C02Src.lean"), c02_tr.translate(server))
     return text
 
 
@@ -572,6 +587,7 @@ DUNDER_KEYS = ["__m__", "__dunder__", "__x__", "__len__", "__iter__", "__len__"]
 SAFE_RESERVED_KEYS = ["__call__", "__copy__", "__deepcopy__", "__enter__", "__exit__", "__cmp__", "__coerce__", "__nonzero__",
                       "__hasattr__", "__getinitargs__", "__format__", "__sizeof__"]
 ODD_KEYS = ["a.b", "m.n", "m ", "M"]
+LAZY_KEYS = ["a", "h", "lazy", "mm", "res", "w0", "__lazy__", "Z"]     # sort before / between / after the usual member names in dir()
 AMBIENT = ["__dict__", "__doc__", "__module__", "__weakref__", "__class__", "__init__", "__getattribute__", "__getattr__",
            "__setattr__", "__delattr__", "__new__", "__del__", "__reduce__", "__reduce_ex__", "__getstate__", "__dir__",
            "__subclasshook__", "__init_subclass__", "__eq__", "__hash__", "__repr__", "__str__",
@@ -674,7 +690,19 @@ class _Gen:
                 if k not in keys:
                     members.append([k, {"k": "func", "f": {"name": k, "fid": self.next_id(), "expose": k == "__len__" and rng.random() < 0.3,
                                                             "oneway": False}}])
+                    if rng.random() < 0.4:
+                        members[-1][1]["f"]["falsy"] = True      # the object is falsy: __len__ -> 0 / __bool__ -> False (empty container, idle job)
             classes.append({"expose": rng.random() < 0.35, "members": members})
+        if rng.random() < 0.3:
+            # a plain class attribute that is resolved lazily (non-data descriptor): the first computation(s) of the member list are
+            # interrupted part-way by an exception, or a second connection asks for the list while the first computation is still
+            # running.  For everything else it is a data attribute (the model sees "attr data").
+            used = {k for c in classes for k, _ in c["members"]}
+            free = [k for k in LAZY_KEYS if k not in used]
+            if free:
+                lazy = {"mode": rng.choice(["raise", "raise", "conc"]), "n": rng.choice([1, 1, 2]),
+                        "exc": rng.choice(["RuntimeError", "AttributeError", "KeyError", "OSError"])}
+                rng.choice(classes)["members"].append([rng.choice(free), {"k": "attr", "v": {"v": "data", "lazy": lazy}}])
         inst = []
         type_keys = [k for c in classes for k, _ in c["members"]]
         for _ in range(rng.choice([0, 0, 1, 2, 3])):
@@ -1044,7 +1072,7 @@ def run_case(real, codec, shape, reqs, prior=None, reg="strong"):
     if err:
         return err, None, []
     try:
-        md = real.metadata()
+        md = real.first_metadata()
     except c02_real.MetadataFailed as x:
         return "nometadata", str(x), []
     results = [real.request(r) for r in reqs]
@@ -1125,10 +1153,26 @@ def _check_case(ctx, real, codec, shape, reqs, keys, tag, events=(), prior=None,
             reply, eff = real.request({"batch": False, "oneway": False, "method": method, "args": args})
             s[kind] = reply == "result"
         full[n] = s
+    lazy_note = ""
+    if real.lazies:
+        ctx.count("first-member-list:%s" % ("second request while the first computation is parked" if real.first_other is not None
+                                            else "%d computation(s) failed part-way" % real.first_failed))
+        ctx.nontriv(shape_id + "/first-member-list")
+        lazy_note = " (a class attribute is resolved lazily: %s)" % (
+            "this list was told to a second connection while the first computation was still running" if real.first_other is not None
+            else "%d earlier get_metadata request(s) failed part-way, this is the first list told" % real.first_failed)
     for sig, desc in judge_metadata(shape, md, full):
         if prior:
             desc += " (an object of a different class with the same module and qualified name was registered and asked for its metadata before)"
-        later.append((sig, desc + " [%s]" % tag, with_prior({"shape": shape, "req": None})))
+        later.append((sig, desc + lazy_note + " [%s]" % tag, with_prior({"shape": shape, "req": None})))
+    if real.first_other is not None and real.first_other != md:
+        other = real.first_other
+        full2 = dict(full)
+        for n, sv in _probe_served(real, [n for n in other["methods"] + other["attrs"] if n not in full2]).items():
+            full2[n] = sv
+        for sig, desc in judge_metadata(shape, other, full2):
+            later.append((sig, desc + " (the list told to the first connection, whose computation was parked while a second connection asked) [%s]" % tag,
+                          with_prior({"shape": shape, "req": None})))
     # ---- the history: run-time changes (metadata cache filled above, never reset), each request judged against the state of its moment
     cur, steps = shape, []
     results = list(results)
@@ -1190,7 +1234,7 @@ def _replay_case(real, shape, steps, req, prior=None, reg="strong"):
     if real.build(shape, prior, reg):
         return None
     try:
-        real.metadata()
+        real.first_metadata()
     except Exception:
         return None
     cur = shape
@@ -1398,11 +1442,15 @@ def replay(ctx, case):
             print("the decorators refused the shape:", err)
             return 0
         try:
-            md = real.metadata()
+            md = real.first_metadata()
         except c02_real.MetadataFailed as x:
             print("the daemon does not advertise a member list:", x)
             print("VIOLATION reproduced")
             return 1
+        if real.lazies:
+            print("a class attribute of the shape is resolved lazily:", "a second get_metadata request was made while the first was parked "
+                  "inside the computation; the first was told %s" % (real.first_other,) if real.first_other is not None
+                  else "%d get_metadata request(s) failed part-way before the first list was told" % real.first_failed)
         print("advertised metadata (this also fills the per-class member cache):", md)
         cur = shape
         for ev in steps:
@@ -1419,10 +1467,13 @@ def replay(ctx, case):
                 print("resetMetadataCache ->", real.step({"t": "rm"}))
                 md = real.metadata()
                 print("advertised metadata now:", md)
+            other = real.first_other if not steps and real.first_other is not None else {"methods": [], "attrs": []}
             served = _probe_served(real, {k for cl in cur["classes"] for k, _ in cl["members"]} | {k for k, _ in cur["inst"]}
-                                   | set(md["methods"]) | set(md["attrs"]))
+                                   | set(md["methods"]) | set(md["attrs"]) | set(other["methods"]) | set(other["attrs"]))
             print("served:", served)
             bad = judge_metadata(cur, md, served)
+            if other.get("oneway") is not None and other != md:
+                bad = bad + judge_metadata(cur, other, served)
         for sig, desc in bad:
             print("  [%s] %s" % (sig, desc))
         print("VIOLATION reproduced" if bad else "not reproduced")
